@@ -134,6 +134,10 @@ class DataFrame:
         return self._nbytes
 
     def append(self, entry):
+        if not isinstance(self._rows, list):
+            # a frame built from a generator of rows holds them lazily; appending needs the list
+            self.materialize()
+            self._cursor = None
         if isinstance(entry, MutableMapping) and type(entry) is not dict:
             # validate accepts any mutable mapping; the row factory only reads exact dicts
             entry = dict(entry)
